@@ -65,6 +65,7 @@ type vfLimProvider struct {
 	srv      *httptest.Server
 	key      *rsa.PrivateKey
 	jwksHits int64
+	tokenHits int64
 }
 
 func vfLimNewProvider(t testing.TB) *vfLimProvider {
@@ -86,6 +87,15 @@ func vfLimNewProvider(t testing.TB) *vfLimProvider {
 		atomic.AddInt64(&p.jwksHits, 1)
 		w.Header().Set("Content-Type", "application/json")
 		json.NewEncoder(w).Encode(p.jwks())
+	})
+	// token endpoint (refresh grants only): a fresh one-hour ID token for the same user, refresh token rotated
+	mux.HandleFunc("/token", func(w http.ResponseWriter, r *http.Request) {
+		atomic.AddInt64(&p.tokenHits, 1)
+		now := time.Now().Unix()
+		id := p.sign(t, map[string]interface{}{"iss": p.srv.URL, "aud": "vf-client", "sub": "vf-refreshed", "email": "r@example.com",
+			"iat": now - 1, "exp": now + 3600, "jti": fmt.Sprintf("vf-rf-%d", time.Now().UnixNano())})
+		w.Header().Set("Content-Type", "application/json")
+		json.NewEncoder(w).Encode(map[string]interface{}{"id_token": id, "access_token": "at", "refresh_token": fmt.Sprintf("rt-%d", now), "token_type": "Bearer", "expires_in": 3600})
 	})
 	p.srv = httptest.NewServer(mux)
 	return p
@@ -378,6 +388,11 @@ type vfLimSupport struct {
 	// about them is cached here), one request each, at once, on an instance whose limit is the minimum
 	SessionRequests  int `json:"session_requests"`
 	SessionForwarded int `json:"session_forwarded"` // must be all of them
+	// a REFRESH is a full verification: with a token available it succeeds (control), with the limiter drained the
+	// refreshed ID token is refused without being verified and the request is not forwarded
+	RefreshControlForwarded bool `json:"refresh_control_forwarded"`
+	RefreshRefusedWhenDrained bool `json:"refresh_refused_when_drained"`
+	RefreshDrainedStatus int `json:"refresh_drained_status"`
 	OK                   bool   `json:"ok"`
 	Why                  string `json:"why,omitempty"`
 }
@@ -472,9 +487,41 @@ func vfLimSupportRun(t testing.TB, p *vfLimProvider) vfLimSupport {
 		}
 	}
 
+	// refreshes are verifications: one with a token available (control), one with the limiter drained
+	{
+		rinst := vfLimNew(t, p.srv.URL, n)
+		if vfLimWaitInit(rinst, 10*time.Second) {
+			vfLimSetJWKCache(rinst, &vfLimCountingJWKS{set: p.jwks()})
+			send := func(tag string) int {
+				now := time.Now().Unix()
+				tok := p.sign(t, map[string]interface{}{"iss": vfLimIssuer(rinst), "aud": "vf-client", "sub": "vf-" + tag, "email": tag + "@example.com",
+					"iat": now - 600, "exp": now + 20, "nonce": tag}) // inside the refresh grace period
+				cookies, err := vfLimMintSessionRT(inst, tag+"@example.com", tok, "rt-"+tag)
+				if err != nil {
+					return -1
+				}
+				req := httptest.NewRequest("GET", "http://app.example.test/page", nil)
+				for _, c := range cookies {
+					req.AddCookie(c)
+				}
+				rec := httptest.NewRecorder()
+				rinst.ServeHTTP(rec, req)
+				return rec.Code
+			}
+			s.RefreshControlForwarded = send("ctl") == 200
+			rl := vfLimLimiter(rinst)
+			at2 := time.Now().Add(50 * time.Millisecond)
+			for i := 0; i < 100000 && rl.AllowN(at2, 1); i++ {
+			}
+			s.RefreshDrainedStatus = send("drained")
+			s.RefreshRefusedWhenDrained = s.RefreshDrainedStatus != 200
+		}
+	}
+
 	s.OK = s.ControlVerified && s.ControlJWKSCalls >= 1 && s.Drained && s.RefusedErr && s.RefusedJWKSCalls == 0 &&
 		!s.RefusedCached && s.RefusedCacheGrowth == 0 && !s.RefusedReplayRecord && s.AcceptedAfterRefill &&
-		s.CachedOK == s.CachedCalls && !s.CachedConsumedTokens && s.SessionRequests > 0 && s.SessionForwarded == s.SessionRequests
+		s.CachedOK == s.CachedCalls && !s.CachedConsumedTokens && s.SessionRequests > 0 && s.SessionForwarded == s.SessionRequests &&
+		s.RefreshControlForwarded && s.RefreshRefusedWhenDrained
 	if !s.OK && s.Why == "" {
 		switch {
 		case !s.ControlVerified || s.ControlJWKSCalls < 1 || !s.Drained:
@@ -485,6 +532,10 @@ func vfLimSupportRun(t testing.TB, p *vfLimProvider) vfLimSupport {
 			s.Why = "a verification refused by the limiter performed verification work"
 		case s.SessionForwarded != s.SessionRequests || s.SessionRequests == 0:
 			s.Why = fmt.Sprintf("requests on already authenticated sessions were limited: %d sessions issued by another instance, one request each on a fresh instance with rateLimit %d, only %d forwarded", s.SessionRequests, n, s.SessionForwarded)
+		case !s.RefreshControlForwarded:
+			s.Why = "harness precondition not met (a refresh with a limiter token available was not forwarded)"
+		case !s.RefreshRefusedWhenDrained:
+			s.Why = fmt.Sprintf("a refresh was admitted although the limiter held no token: the request carrying a session in its grace period was answered %d", s.RefreshDrainedStatus)
 		case !s.AcceptedAfterRefill:
 			s.Why = "the refused token does not verify once a token is available again (refusal not due to the limiter alone, or it left a trace)"
 		default:
